@@ -3,6 +3,7 @@ import NxProofs.Refine
 import NxProofs.RefineSend
 import NxProofs.Sys
 import NxProofs.Duplex
+import NxProofs.HandshakeServer
 import NxProofs.Liveness
 import NxProofs.Unreliable
 import NxProps.C04
@@ -574,6 +575,52 @@ example :
     (Sys.run env 0 (Sys.fresh a b) ops).b.queues = [[[1, 2, 3], [9]]] ∧
     (Sys.run env 0 (Sys.fresh a b) ops).accepted = [[1, 2, 3], [9]] ∧
     (Sys.run env 0 (Sys.fresh a b) ops).b.eof = true := by decide +kernel
+
+/-! ## from the handshake to `Established`
+
+The full statement one wants: *for every environment, every client and server configuration and every credential, if the four-packet
+handshake of the model completes (`handshakeRun … = some (c, cs)` and its generalisation to arbitrary parameters), then `c` and `cs` are
+`Established` towards each other on every negotiated substream.* It is checked by the kernel on closed configurations
+(`handshakeRun` above) and, on every run of the checks, by the L1 driver on the two model endpoints after every replayed REAL
+handshake (`est`, about 900 handshakes per quick run across the negotiation grid, v0 / v1, with and without credentials) — but it is
+proved only in part: the SERVER's half holds for every configuration (`server_half_after_connect`), the CLIENT's half
+(`ClientReady`: what `handshake()`, `process_syn` and `process_connect` leave in the client object) is a hypothesis of
+`handshake_leaves_established_partial`, as is the equality of the substream keys (with credentials that is the ticket's session key
+reaching both ends: C05 / C16). -/
+
+open Nx.L1 Nx.Prudp in
+/-- **the server's half, for every configuration**: the connection object `process_connect` registers for a CONNECT from a peer it
+    did not know — whatever the environment, the packet, the random draws and the ticket key — is, on every substream the settings
+    allow: an empty receive window at id 2 (substream 0: the CONNECT took id 1) or 1, empty queue and fragment buffer, open, on the
+    link as given, send counter 1, both cipher positions 0, no retransmission pending, CONNECTED -/
+theorem server_half_after_connect (env : Env) (now : Time) (rnd : Rnd) (up : Bool) (s : ServerStream) (p : Packet) (addr : Addr)
+    (hnew : clientLookup (addr, p.sourcePort, p.sourceType) s.clients = none) (cs : Conn)
+    (hreg : clientLookup (addr, p.sourcePort, p.sourceType) (s.processConnect env now rnd up p addr).s.clients = some cs)
+    (sub : Nat) (hsub : sub ≤ env.s.maxSubstreamId) : ServerFresh cs sub up :=
+  server_half_established env now rnd up s p addr hnew cs hreg sub hsub
+
+open Nx.L1 Nx.Prudp in
+/-- (partial — see the section comment) a ready client and the connection the server registered for its CONNECT, with equal
+    substream keys and cipher setting, are `Established` in both directions; hence (`C01_duplex_established`) every duplex theorem
+    applies from there -/
+theorem handshake_leaves_established_partial (env : Env) (now : Time) (rnd : Rnd) (s : ServerStream) (p : Packet) (addr : Addr)
+    (hnew : clientLookup (addr, p.sourcePort, p.sourceType) s.clients = none) (c cs : Conn)
+    (hreg : clientLookup (addr, p.sourcePort, p.sourceType) (s.processConnect env now rnd true p addr).s.clients = some cs)
+    (sub : Nat) (hsub : sub ≤ env.s.maxSubstreamId) (hc : ClientReady c sub)
+    (hk : (c.relCiphers[sub]?).map StreamCipher.key = (cs.relCiphers[sub]?).map StreamCipher.key) (hon : cs.cipherOn = c.cipherOn) :
+    Established sub (if sub = 0 then 2 else 1) c cs ∧ Established sub 1 cs c :=
+  established_of_halves sub c cs hc (server_half_established env now rnd true s p addr hnew cs hreg sub hsub) hk hon
+
+/-! non-vacuity of `ClientReady`: the client the modelled handshake produces has every field of it (substreams 0 and 1) -/
+open Nx.L1 Nx.Prudp in
+example :
+    let env : Env := { C04.toyEnv with s := { fragmentSize := 2, transport := TRANSPORT_TCP, maxSubstreamId := 1 } }
+    (handshakeRun env ("10.0.0.2", 1) ("10.0.0.1", 2)).map (fun (c, _) =>
+      [0, 1].all (fun sub =>
+        (c.counters[sub]? == some (if sub = 0 then 2 else 1)) && (c.windows[sub]? == some { next := 1, packets := [] }) &&
+        (c.queues[sub]? == some []) && (c.fragBufs[sub]? == some []) && !c.eof && c.linkUp &&
+        ((c.relCiphers[sub]?).map (·.encPos) == some 0) && ((c.relCiphers[sub]?).map (·.decPos) == some 0) &&
+        (resendsOf c).all (fun p => !relevant sub p))) = some true := by decide +kernel
 
 /-! ## both directions of a connection at once -/
 
